@@ -11,6 +11,7 @@ import (
 	lz4 "github.com/pierrec/lz4/v4"
 	"pgregory.net/rapid"
 
+	"verifharness/gen"
 	"verifharness/inst"
 	"verifharness/ref"
 	"verifharness/stat"
@@ -58,7 +59,7 @@ func (r *c08Run) writer(c c08WCase) {
 		switch op.Op {
 		case "write":
 			data := opData(op.N, op.Seed)
-			n, err := w.Write(data)
+			n, err := writeScribbled(w, data)
 			if err != nil || n != len(data) {
 				if c.FailAt > 0 {
 					failed = true
@@ -245,13 +246,13 @@ func drawC08W(t *rapid.T) c08WCase {
 // ---------------------------------------------------------------- Reader
 
 type c08RCase struct {
-	Frame   rFrame `json:"frame"`
-	Conc    int    `json:"conc"`
-	WriteTo bool   `json:"writeto"`
-	Sizes   []int  `json:"sizes,omitempty"`
-	SrcFail int    `json:"srcfail,omitempty"` // the k-th source Read fails
-	SinkFail int   `json:"sinkfail,omitempty"` // WriteTo: the k-th sink Write fails
-	Sched   []int  `json:"sched,omitempty"`
+	Frame    rFrame `json:"frame"`
+	Conc     int    `json:"conc"`
+	WriteTo  bool   `json:"writeto"`
+	Sizes    []int  `json:"sizes,omitempty"`
+	SrcFail  int    `json:"srcfail,omitempty"`  // the k-th source Read fails
+	SinkFail int    `json:"sinkfail,omitempty"` // WriteTo: the k-th sink Write fails
+	Sched    []int  `json:"sched,omitempty"`
 }
 
 func (r *c08Run) reader(c c08RCase) {
@@ -382,9 +383,26 @@ func drawC08R(t *rapid.T) c08RCase {
 	case 0, 1, 2, 3, 4, 5:
 		c.Frame = rFrame{Kind: "writer", Opts: wopts{BS: 4, BlockSum: rapid.Bool().Draw(t, "bsum"), ContentSum: rapid.Bool().Draw(t, "csum"), Conc: 1},
 			N: rapid.SampledFrom([]int{0, 100, 65536, 200000, 400000, 786432}).Draw(t, "n"), Seed: rapid.Uint64Range(1, 50).Draw(t, "seed")}
-	case 6, 7:
+	case 6:
 		spec := genIndepSpec(t)
 		c.Frame = rFrame{Kind: "enc", Spec: spec}
+	case 7:
+		// empty stored blocks early in the frame, a corrupted byte later: the consumer meets an empty block while a
+		// later block has already failed (or is about to fail) in a worker
+		spec := genIndepSpec(t)
+		spec.BlockSum = true
+		k := rapid.IntRange(1, 3).Draw(t, "nempty")
+		for i := 0; i < k; i++ {
+			at := rapid.IntRange(0, len(spec.Blocks)).Draw(t, "emptyat")
+			blocks := append([]gen.BlockSpec(nil), spec.Blocks[:at]...)
+			blocks = append(blocks, gen.BlockSpec{Raw: true, RawN: 0})
+			spec.Blocks = append(blocks, spec.Blocks[at:]...)
+		}
+		for i := 0; i < 4; i++ {
+			spec.Blocks = append(spec.Blocks, gen.BlockSpec{Raw: true, RawN: rapid.SampledFrom([]int{10, 3000, 60000}).Draw(t, "tailraw"), RawSeed: uint64(i)})
+		}
+		z, _ := spec.Build()
+		c.Frame = rFrame{Kind: "enc", Spec: spec, Mut: &mutation{Op: "xor", Off: rapid.IntRange(len(z)/2, len(z)-1).Draw(t, "mutoff"), Val: 0x20}}
 	default:
 		c.Frame = rFrame{Kind: "mutated", Opts: wopts{BS: 4, BlockSum: rapid.Bool().Draw(t, "bsum"), ContentSum: true, Conc: 1},
 			N: rapid.SampledFrom([]int{200000, 400000, 786432}).Draw(t, "n"), Seed: rapid.Uint64Range(1, 50).Draw(t, "seed"),
